@@ -965,3 +965,52 @@ func (e *Engine) orderFreeViolation(fn *ssa.Function) string {
 	}
 	return ""
 }
+
+// fieldsRead: the set "pkgname.Type.Field" of struct fields loaded (FieldAddr /
+// Field) by fn or by functions of the same package statically reachable from it.
+func (e *Engine) fieldsRead(fn *ssa.Function) map[string]bool {
+	out := map[string]bool{}
+	seen := map[*ssa.Function]bool{}
+	var walk func(f *ssa.Function)
+	walk = func(f *ssa.Function) {
+		if f == nil || seen[f] || len(f.Blocks) == 0 {
+			return
+		}
+		seen[f] = true
+		record := func(t types.Type, idx int) {
+			if p, ok := t.Underlying().(*types.Pointer); ok {
+				t = p.Elem()
+			}
+			st, ok := t.Underlying().(*types.Struct)
+			if !ok || idx >= st.NumFields() {
+				return
+			}
+			out[typeKey(t)+"."+st.Field(idx).Name()] = true
+		}
+		for _, b := range f.Blocks {
+			for _, in := range b.Instrs {
+				switch i := in.(type) {
+				case *ssa.FieldAddr:
+					// only loads count: the address must be dereferenced by a load
+					if i.Referrers() != nil {
+						for _, r := range *i.Referrers() {
+							if u, ok := r.(*ssa.UnOp); ok && u.Op == token.MUL {
+								record(i.X.Type(), i.Field)
+							}
+						}
+					}
+				case *ssa.Field:
+					record(i.X.Type(), i.Field)
+				case ssa.CallInstruction:
+					if cal := i.Common().StaticCallee(); cal != nil && pkgOf(cal) != nil && pkgOf(fn) != nil && pkgOf(cal).Path() == pkgOf(fn).Path() {
+						walk(cal)
+					}
+				case *ssa.MakeClosure:
+					walk(i.Fn.(*ssa.Function))
+				}
+			}
+		}
+	}
+	walk(fn)
+	return out
+}
